@@ -53,6 +53,20 @@ CHECKS = {
     text="Inbound.tla: TLC checks ExactlyOnce / AckPairing on all histories over PUBLISH q2(id,dup) / PUBREL(id) / PUBLISH q1 / reconnect(clean) up to the depth bound and prints each history; the histories are replayed (explicit packet ids, "
          "retransmissions with and without DUP, id reuse, reconnects with Clean Start 0/1, v3.1.1 and v5) with an independent QoS2 subscriber; TLC validates that each logical message is forwarded exactly once and each packet gets its ack with the same id.",
     note="Depth 4 (quick: seeded sample of 500 of 10 000 histories) / depth 5 (thorough: all). Two packet ids."),
+ "C06": dict(
+    level="exploration", ref="DESIGN.md §4 C06, §6",
+    technique="TLC-evaluated independent wire-format definition (Codec.tla: encoder, decoder, size formula, 44 fault operators) generating valid and faulted vectors for the real decoder/encoder; TopicStr.tla validity tables",
+    text="PARTIAL (DESIGN.md §6): decided for the grammar and its fault-operator closure, not for arbitrary byte strings. Codec.tla is an independent definition of MQTT 3.1/3.1.1/5 (all 15 packet types, property table with multiplicities); TLC asserts "
+         "Len(Enc(p)) = SizeFormula(p), Dec(Enc(p)) = p and that each fault lands outside the image of Enc, and emits ~1.5e4 (quick) / ~2.7e5 (thorough) vectors. The driver feeds them to packets.Reader (guard bytes, watchdog, allocation limit): valid => accepted, "
+         "fields equal, consumed exactly, re-encodes, TotalBytes and Message.TotalBytes = length; faulted => error, no panic; the real encoder's output must equal Enc(p). Topic name/filter validity: byte-level table incl. NUL and invalid UTF-8.",
+    note="Not decided: arbitrary byte strings (no fuzzing by design), the 2 097 151/2 097 152 remaining-length boundary. Four open known findings (D7, D5 rest, D11, D4 rest) pinned by existing tests or not small."),
+ "C14": dict(
+    level="model_checking", ref="DESIGN.md §4 C14",
+    technique="TLC model check of Hooks.tla (wrapper nesting, verdict state machine) + replay of every emitted composition case and verdict transition on real brokers with recording plugins/hooks",
+    text="Composition: TLC enumerates hook kind x sequences of <= 3 plugins x exposing subsets x core hook present (3002 cases; the model proves the step-by-step nesting equals the closed-form log); each case = one real broker, one event of that kind, "
+         "recorded call log = demanded nested log (order, exactly once). Verdicts: every (state, request, verdict) transition of the verdict model replayed on a fresh broker: response codes, deliveries to an independent observer and the subject, "
+         "ClientService/SubscriptionService/RetainedService snapshots compared (reject leaves no trace, rewrite is what is seen, will edit/drop). Volume run of rejected CONNECTs over all failure codes.",
+    note="Three open known findings (retained store updated before OnMsgArrived; occasionally lost failing CONNACK; multi-step enhanced auth never completes) handled as named deviations / signatures: strict pass reports them, second pass with deviations on covers the full graph."),
 }
 
 NOT_YET = {
